@@ -1,0 +1,733 @@
+//go:build verif
+
+// Contracts for package sbom, read by /verif/govc (comment-only file: with the
+// build tag off the compiler does not even parse it).
+package sbom
+
+// ---------------------------------------------------------------------------
+// Valid input values: repeated message fields hold no nil element.
+// ---------------------------------------------------------------------------
+
+//@ typeinv NodeList: (forall i int :: 0 <= i && i < len(self.Nodes) ==> self.Nodes[i] != nil) && (forall j int :: 0 <= j && j < len(self.Edges) ==> self.Edges[j] != nil)
+//@ typeinv Node: (forall i int :: 0 <= i && i < len(self.Suppliers) ==> self.Suppliers[i] != nil) && (forall j int :: 0 <= j && j < len(self.Originators) ==> self.Originators[j] != nil) && (forall k int :: 0 <= k && k < len(self.ExternalReferences) ==> self.ExternalReferences[k] != nil)
+//@ typeinv Metadata: (forall i int :: 0 <= i && i < len(self.Tools) ==> self.Tools[i] != nil) && (forall j int :: 0 <= j && j < len(self.Authors) ==> self.Authors[j] != nil) && (forall k int :: 0 <= k && k < len(self.DocumentTypes) ==> self.DocumentTypes[k] != nil)
+//@ typeinv Person: forall i int :: 0 <= i && i < len(self.Contacts) ==> self.Contacts[i] != nil
+
+// ---------------------------------------------------------------------------
+// C11 (read-only operations leave operands unchanged): assigns \nothing
+// C12 (copies are independent values): owns
+// ---------------------------------------------------------------------------
+
+//@ func Person.Copy
+//@   props C11, C12
+//@   assigns \nothing
+//@   owns
+//@   ensures result != nil
+//@   ensures-each Person[string,enum,int,bool]: [C12:copy:$f] result.$f == p.$f
+
+//@ func ExternalReference.Copy
+//@   props C11, C12
+//@   assigns \nothing
+//@   owns
+//@   ensures result != nil
+//@   ensures-each ExternalReference[string,enum,int,bool]: [C12:copy:$f] result.$f == e.$f
+//@   ensures-each ExternalReference[map]: [C12:copy:$f] sameMap(result.$f, e.$f)
+
+//@ func Edge.Copy
+//@   props C11, C12, C08, C09, C10
+//@   assigns \nothing
+//@   owns
+//@   ensures result != nil
+//@   ensures [fresh] fresh(result)
+//@   ensures [freshTo] arr(result.To) == nil || fresh(arr(result.To))
+//@   ensures [C12:copy:edge] result.From == e.From && result.Type == e.Type && len(result.To) == len(e.To) && (forall j int :: 0 <= j && j < len(e.To) ==> result.To[j] == e.To[j])
+
+//@ func Node.Copy
+//@   props C11, C12, C08, C09, C10
+//@   assigns \nothing
+//@   owns
+//@   ensures result != nil
+//@   ensures [fresh] fresh(result)
+//@   ensures-each Node[string,enum,int,bool]: [C12:copy:$f] result.$f == n.$f
+//@   ensures-each Node[slice]: [C12:copy:$f] len(result.$f) == len(n.$f) && (forall j int :: 0 <= j && j < len(n.$f) ==> result.$f[j] == n.$f[j])
+//@   ensures-each Node[map]: [C12:copy:$f] sameMap(result.$f, n.$f)
+//@   ensures-each Node[ptr]: [C12:copy:$f] (result.$f == nil) <==> (n.$f == nil)
+//@   ensures-each Node[ptrslice]: [C12:copy:$f] len(result.$f) == len(n.$f)
+//@   invariant L0: [C12:inv] len(no.Suppliers) == _i
+//@   invariant L1: [C12:inv] len(no.Suppliers) == len(n.Suppliers) && len(no.Originators) == _i
+//@   invariant L2: [C12:inv] len(no.Suppliers) == len(n.Suppliers) && len(no.Originators) == len(n.Originators) && len(no.ExternalReferences) == _i
+
+//@ func NodeList.Copy
+//@   props C11, C12
+//@   assigns \nothing
+//@   owns
+//@   ensures result != nil
+
+//@ func copyEdgeList
+//@   props C11, C12, C08, C09, C10
+//@   inline
+//@   assigns \nothing
+//@   owns
+//@   invariant L0: [C08:idx] forall e *Edge :: (e in elems(edgeCopy)) ==> e != nil && fresh(e) && allocated(e) && allocated(arr(e.To)) && (arr(e.To) == nil || fresh(arr(e.To)))
+
+//@ func copyNodeSlice
+//@   props C11, C12
+//@   inline
+//@   assigns \nothing
+//@   owns
+
+//@ func NodeList.Union
+//@   props C11, C12, C08, C09
+//@   requires nl2 != nil
+//@   assigns \nothing
+//@   owns
+//@   requires validNL(nl) && validNL(nl2)
+//@   ensures [C09:union:result] result != nil && fresh(result) && validNL(result)
+//@   ensures [C09:union:ids] forall x string :: (x in fieldset(result.Nodes, Id)) <==> ((x in fieldset(nl.Nodes, Id)) || (x in fieldset(nl2.Nodes, Id)))
+//@   ensures [C09:union:roots] forall r string :: (r in elems(result.RootElements)) <==> ((r in elems(nl.RootElements)) || (r in elems(nl2.RootElements)))
+//@   ensures [C08:union:rootsClosed] closedRoots(nl) && closedRoots(nl2) ==> closedRoots(result)
+//@   ensures [C08:union:edgesClosed] closedEdges(result)
+//@   invariant L0: [C09:inv] allocated(arr(ret.RootElements)) && (forall e *Edge :: (e in elems(ret.Edges)) ==> fresh(e) && allocated(e) && (arr(e.To) == nil || (fresh(arr(e.To)) && arr(e.To) != arr(ret.RootElements))))
+//@   invariant L0: [C09:inv] forall r string :: (r in elems(ret.RootElements)) <==> (r in elems(nl.RootElements))
+//@   invariant L1: [C09:inv] allocated(arr(ret.RootElements)) && (forall e *Edge :: (e in elems(ret.Edges)) ==> fresh(e) && allocated(e) && (arr(e.To) == nil || (fresh(arr(e.To)) && arr(e.To) != arr(ret.RootElements))))
+//@   invariant L1: [C09:inv] forall r string :: (r in elems(ret.RootElements)) <==> (r in elems(nl.RootElements))
+//@   invariant L2: [C09:inv] allocated(arr(ret.RootElements)) && (forall e *Edge :: (e in elems(ret.Edges)) ==> fresh(e) && allocated(e) && (arr(e.To) == nil || (fresh(arr(e.To)) && arr(e.To) != arr(ret.RootElements))))
+//@   invariant L2: [C09:inv] forall r string :: (r in elems(ret.RootElements)) <==> (r in elems(nl.RootElements))
+//@   invariant L3: [C09:inv] allocated(arr(ret.RootElements)) && (forall e *Edge :: (e in elems(ret.Edges)) ==> fresh(e) && allocated(e) && (arr(e.To) == nil || (fresh(arr(e.To)) && arr(e.To) != arr(ret.RootElements))))
+//@   invariant L3: [C09:inv] forall r string :: (r in elems(ret.RootElements)) <==> (r in elems(nl.RootElements))
+//@   invariant L3: [C09:inv] (existingEdge in elems(ret.Edges))
+//@   invariant L4: [C09:inv] forall r string :: (r in elems(ret.RootElements)) <==> ((r in elems(nl.RootElements)) || (r in elemsn(nl2.RootElements, _i)))
+//@   invariant L4: [C09:inv] forall k string :: (k in rootNodes) ==> (k in elems(nl.RootElements))
+//@   ensures [C09:union:order] len(result.Nodes) >= len(nl.Nodes) && (forall i0 int :: 0 <= i0 && i0 < len(nl.Nodes) ==> result.Nodes[i0].Id == nl.Nodes[i0].Id)
+//@   ensures [C09:union:secondWins:Version] (uniqueIdx(nl) && uniqueIdx(nl2)) ==> (forall i0 int, j int :: 0 <= i0 && i0 < len(nl.Nodes) && 0 <= j && j < len(nl2.Nodes) && nl2.Nodes[j].Id == nl.Nodes[i0].Id && nl2.Nodes[j].Version != "" ==> result.Nodes[i0].Version == nl2.Nodes[j].Version)
+//@   ensures [C09:union:firstKept:Version] (uniqueIdx(nl) && uniqueIdx(nl2)) ==> (forall i0 int, j int :: 0 <= i0 && i0 < len(nl.Nodes) && 0 <= j && j < len(nl2.Nodes) && nl2.Nodes[j].Id == nl.Nodes[i0].Id && nl2.Nodes[j].Version == "" ==> result.Nodes[i0].Version == nl.Nodes[i0].Version)
+//@   ensures [C09:union:untouched:Version] (uniqueIdx(nl) && uniqueIdx(nl2)) ==> (forall i0 int :: 0 <= i0 && i0 < len(nl.Nodes) && (forall j int :: 0 <= j && j < len(nl2.Nodes) ==> nl2.Nodes[j].Id != nl.Nodes[i0].Id) ==> result.Nodes[i0].Version == nl.Nodes[i0].Version)
+//@   invariant L0: [C09:inv] len(ret.Nodes) == _i && (forall i0 int :: 0 <= i0 && i0 < _i ==> ret.Nodes[i0] != nil && fresh(ret.Nodes[i0]) && ret.Nodes[i0].Id == nl.Nodes[i0].Id && ret.Nodes[i0].Version == nl.Nodes[i0].Version)
+//@   invariant L1: [C09:inv] len(ret.Nodes) >= len(nl.Nodes) && (forall i0 int :: 0 <= i0 && i0 < len(nl.Nodes) ==> ret.Nodes[i0] != nil && fresh(ret.Nodes[i0]) && ret.Nodes[i0].Id == nl.Nodes[i0].Id)
+//@   invariant L1: [C09:inv] uniqueIdx(nl) ==> (forall i0 int :: 0 <= i0 && i0 < len(nl.Nodes) ==> (nl.Nodes[i0].Id in nodeindex) && nodeindex[nl.Nodes[i0].Id] == ret.Nodes[i0])
+//@   invariant L1: [C09:inv] (uniqueIdx(nl) && uniqueIdx(nl2)) ==> (forall i0 int, j int :: 0 <= i0 && i0 < len(nl.Nodes) && 0 <= j && j < _i && nl2.Nodes[j].Id == nl.Nodes[i0].Id && nl2.Nodes[j].Version != "" ==> ret.Nodes[i0].Version == nl2.Nodes[j].Version)
+//@   invariant L1: [C09:inv] (uniqueIdx(nl) && uniqueIdx(nl2)) ==> (forall i0 int, j int :: 0 <= i0 && i0 < len(nl.Nodes) && 0 <= j && j < _i && nl2.Nodes[j].Id == nl.Nodes[i0].Id && nl2.Nodes[j].Version == "" ==> ret.Nodes[i0].Version == nl.Nodes[i0].Version)
+//@   invariant L1: [C09:inv] (uniqueIdx(nl) && uniqueIdx(nl2)) ==> (forall i0 int :: 0 <= i0 && i0 < len(nl.Nodes) && (forall j int :: 0 <= j && j < _i ==> nl2.Nodes[j].Id != nl.Nodes[i0].Id) ==> ret.Nodes[i0].Version == nl.Nodes[i0].Version)
+//@   ensures [C08:union:normalised] normalisedNL(result)
+//@   invariant L0: [C09:inv] !(nil in elems(ret.Nodes)) && !(nil in elems(ret.Edges)) && (forall p *Node :: (p in elems(ret.Nodes)) ==> fresh(p))
+//@   invariant L0: [C09:inv] (forall x string :: (x in fieldset(ret.Nodes, Id)) <==> (x in fieldsetn(nl.Nodes, Id, _i)))
+//@   invariant L1: [C09:inv] !(nil in elems(ret.Nodes)) && !(nil in elems(ret.Edges)) && (forall p *Node :: (p in elems(ret.Nodes)) ==> fresh(p))
+//@   invariant L1: [C09:inv] (forall x string :: (x in fieldset(ret.Nodes, Id)) <==> ((x in fieldset(nl.Nodes, Id)) || (x in fieldsetn(nl2.Nodes, Id, _i))))
+//@   invariant L1: [C09:inv] forall k string :: (k in nodeindex) ==> (k in fieldset(nl.Nodes, Id))
+//@   invariant L1: [C09:inv] nodeindex != nil && fresh(nodeindex) && (forall k string :: (k in nodeindex) ==> nodeindex[k] != nil && fresh(nodeindex[k]) && nodeindex[k].Id == k && (nodeindex[k] in elems(ret.Nodes)))
+//@   invariant L2: [C09:inv] !(nil in elems(ret.Edges))
+//@   invariant L3: [C09:inv] !(nil in elems(ret.Edges)) && existingEdge != nil
+//@   invariant L4: [C09:inv] validNL(ret) && closedEdges(ret) && normalisedNL(ret)
+//@   invariant L4: [C09:inv] (forall e *Edge :: (e in elems(ret.Edges)) ==> arr(e.To) != arr(ret.RootElements) || arr(e.To) == nil)
+
+//@ func NodeList.Intersect
+//@   props C11, C12, C08, C10
+//@   requires nl2 != nil
+//@   assigns \nothing
+//@   owns
+//@   requires validNL(nl) && validNL(nl2)
+//@   ensures [C10:intersect:result] result != nil && fresh(result) && validNL(result)
+//@   ensures [C10:intersect:ids] forall x string :: (x in fieldset(result.Nodes, Id)) <==> ((x in fieldset(nl.Nodes, Id)) && (x in fieldset(nl2.Nodes, Id)))
+//@   ensures [C10:intersect:roots] forall r string :: (r in elems(result.RootElements)) <==> ((r in fieldset(result.Nodes, Id)) && ((r in elems(nl.RootElements)) || (r in elems(nl2.RootElements))))
+//@   ensures [C10:intersect:secondWins:Version] (uniqueIdx(nl) && uniqueIdx(nl2)) ==> (forall a int, i0 int, j int :: 0 <= a && a < len(result.Nodes) && 0 <= i0 && i0 < len(nl.Nodes) && 0 <= j && j < len(nl2.Nodes) && result.Nodes[a].Id == nl.Nodes[i0].Id && result.Nodes[a].Id == nl2.Nodes[j].Id ==> result.Nodes[a].Version == (nl2.Nodes[j].Version != "" ? nl2.Nodes[j].Version : nl.Nodes[i0].Version))
+//@   invariant L0: [C10:inv] (uniqueIdx(nl) && uniqueIdx(nl2)) ==> (forall a int, i0 int, j int :: 0 <= a && a < len(ret.Nodes) && 0 <= i0 && i0 < len(nl.Nodes) && 0 <= j && j < len(nl2.Nodes) && ret.Nodes[a].Id == nl.Nodes[i0].Id && ret.Nodes[a].Id == nl2.Nodes[j].Id ==> ret.Nodes[a].Version == (nl2.Nodes[j].Version != "" ? nl2.Nodes[j].Version : nl.Nodes[i0].Version))
+//@   invariant L0: [C10:inv] uniqueIdx(nl) ==> (forall i0 int :: 0 <= i0 && i0 < len(nl.Nodes) ==> (nl.Nodes[i0].Id in ni1) && ni1[nl.Nodes[i0].Id] == nl.Nodes[i0])
+//@   invariant L0: [C10:inv] uniqueIdx(nl2) ==> (forall j int :: 0 <= j && j < len(nl2.Nodes) ==> (nl2.Nodes[j].Id in ni2) && ni2[nl2.Nodes[j].Id] == nl2.Nodes[j])
+//@   invariant L0: [C10:inv] forall a int :: 0 <= a && a < len(ret.Nodes) ==> ret.Nodes[a] != nil && fresh(ret.Nodes[a])
+//@   ensures [C08:intersect:uniqueIds] forall i int, j int :: 0 <= i && i < j && j < len(result.Nodes) ==> result.Nodes[i].Id != result.Nodes[j].Id
+//@   ensures [C08:intersect:rootsClosed] closedRoots(result)
+//@   ensures [C08:intersect:edgesClosed] closedEdges(result)
+//@   ensures [C08:intersect:normalised] normalisedNL(result)
+//@   invariant L0: [C10:inv] !(nil in elems(ret.Nodes)) && !(nil in elems(ret.Edges)) && (forall p *Node :: (p in elems(ret.Nodes)) ==> fresh(p))
+//@   invariant L0: [C10:inv] (forall k string :: (k in ni1) <==> (k in fieldset(nl.Nodes, Id))) && (forall k string :: (k in ni2) <==> (k in fieldset(nl2.Nodes, Id))) && (forall k string :: (k in ni1) ==> ni1[k] != nil && ni1[k].Id == k) && (forall k string :: (k in ni2) ==> ni2[k] != nil && ni2[k].Id == k)
+//@   invariant L0: [C10:inv] forall k string :: (k in _V) ==> (k in ni1)
+//@   invariant L0: [C10:inv] (forall k string :: (k in rootElements) <==> (k in elems(nl.RootElements))) && (forall k string :: (k in rootElements2) <==> (k in elems(nl2.RootElements)))
+//@   invariant L0: [C10:inv] (forall x string :: (x in fieldset(ret.Nodes, Id)) <==> ((x in _V) && (x in ni2)))
+//@   invariant L0: [C10:inv] (forall r string :: (r in elems(ret.RootElements)) <==> ((r in _V) && (r in ni2) && ((r in rootElements) || (r in rootElements2))))
+//@   invariant L0: [C10:inv] (forall i int, j int :: 0 <= i && i < j && j < len(ret.Nodes) ==> ret.Nodes[i].Id != ret.Nodes[j].Id) && (forall i int :: 0 <= i && i < len(ret.Nodes) ==> (ret.Nodes[i].Id in _V))
+//@   invariant L0: [C10:inv] allocated(arr(ret.RootElements)) && (forall e *Edge :: (e in elems(ret.Edges)) ==> fresh(e) && allocated(e) && (arr(e.To) == nil || (fresh(arr(e.To)) && arr(e.To) != arr(ret.RootElements))))
+//@   invariant L1: [C10:inv] !(nil in elems(ret.Edges))
+//@   invariant L1: [C10:inv] allocated(arr(ret.RootElements)) && (forall e *Edge :: (e in elems(ret.Edges)) ==> fresh(e) && allocated(e) && (arr(e.To) == nil || (fresh(arr(e.To)) && arr(e.To) != arr(ret.RootElements))))
+//@   invariant L1: [C10:inv] (forall r string :: (r in elems(ret.RootElements)) <==> ((r in fieldset(ret.Nodes, Id)) && ((r in elems(nl.RootElements)) || (r in elems(nl2.RootElements)))))
+//@   invariant L2: [C10:inv] !(nil in elems(ret.Edges)) && existingEdge != nil && (existingEdge in elems(ret.Edges))
+//@   invariant L2: [C10:inv] allocated(arr(ret.RootElements)) && (forall e *Edge :: (e in elems(ret.Edges)) ==> fresh(e) && allocated(e) && (arr(e.To) == nil || (fresh(arr(e.To)) && arr(e.To) != arr(ret.RootElements))))
+//@   invariant L2: [C10:inv] (forall r string :: (r in elems(ret.RootElements)) <==> ((r in fieldset(ret.Nodes, Id)) && ((r in elems(nl.RootElements)) || (r in elems(nl2.RootElements)))))
+//@   invariant L3: [C10:inv] !(nil in elems(ret.Edges)) && existingEdge != nil && (existingEdge in elems(ret.Edges)) && invDict != nil
+//@   invariant L3: [C10:inv] allocated(arr(ret.RootElements)) && (forall e *Edge :: (e in elems(ret.Edges)) ==> fresh(e) && allocated(e) && (arr(e.To) == nil || (fresh(arr(e.To)) && arr(e.To) != arr(ret.RootElements))))
+//@   invariant L3: [C10:inv] (forall r string :: (r in elems(ret.RootElements)) <==> ((r in fieldset(ret.Nodes, Id)) && ((r in elems(nl.RootElements)) || (r in elems(nl2.RootElements)))))
+
+// ---- comparing, hashing, flattening ----
+
+//@ func Node.Equal
+//@   props C11
+//@   assigns \nothing
+
+//@ func Node.flatString
+//@   props C11
+//@   assigns \nothing
+
+//@ func Node.Checksum
+//@   props C11
+//@   assigns \nothing
+
+//@ func flatStringMap
+//@   props C11
+//@   assigns \nothing
+
+//@ func flatStringStrSlice
+//@   props C11
+//@   assigns \nothing
+
+//@ func Edge.Equal
+//@   props C11
+//@   assigns \nothing
+
+//@ func Edge.flatString
+//@   props C11
+//@   assigns \nothing
+
+//@ func Edge.PointsTo
+//@   props C11
+//@   inline
+//@   assigns \nothing
+
+//@ func Person.flatString
+//@   props C11, C14
+//@   pure
+//@   assigns \nothing
+//@   reads-each Person[all]: [C14:key:person:$f]
+
+//@ func Person.ToSPDX2ClientString
+//@   props C11
+//@   inline
+//@   assigns \nothing
+
+//@ func Person.ToSPDX2ClientOrg
+//@   props C11
+//@   inline
+//@   assigns \nothing
+
+// the diff (C14) and equality (C13) of external references go through this key
+//@ func ExternalReference.flatString
+//@   props C11, C14
+//@   pure
+//@   assigns \nothing
+//@   reads-each ExternalReference[all]: [C14:key:extref:$f]
+
+//@ func NodeList.Equal
+//@   props C11
+//@   assigns \nothing
+
+// ---- diffing ----
+
+//@ func Node.Diff
+//@   props C11
+//@   requires n2 != nil
+//@   assigns \nothing
+
+// ---- look-ups ----
+
+//@ func Node.Purl
+//@   props C11, C16
+//@   inline
+//@   assigns \nothing
+//@   ensures [C16:purl] result == (n.Type == 1 ? "" : ((1 in n.Identifiers) ? n.Identifiers[1] : ""))
+
+//@ func Node.HashesMatch
+//@   props C11, C16
+//@   inline
+//@   assigns \nothing
+//@   ensures [C16:hashesMatch] result <==> (len(n.Hashes) > 0 && len(th) > 0 && (exists a int32 :: (a in th) && (a in n.Hashes)) && (forall b int32 :: (b in th) && (b in n.Hashes) ==> n.Hashes[b] == th[b]))
+//@   invariant L0: len(n.Hashes) > 0 && len(th) > 0 && (forall c int32 :: (c in _V) ==> (c in th)) && (atLeastOneMatch <==> (exists a int32 :: (a in _V) && (a in n.Hashes))) && (forall b int32 :: (b in _V) && (b in n.Hashes) ==> n.Hashes[b] == th[b])
+
+//@ func NodeList.GetNodesByName
+//@   props C11, C16
+//@   inline
+//@   assigns \nothing
+//@   ensures [C16:byName:exact] forall p *Node :: (p in elems(result)) <==> ((p in elems(nl.Nodes)) && p.Name == name)
+//@   invariant L0: forall p *Node :: (p in elems(ret)) <==> ((p in elemsn(nl.Nodes, _i)) && p.Name == name)
+
+//@ func NodeList.GetNodeByID
+//@   props C11, C16
+//@   inline
+//@   assigns \nothing
+//@   ensures [C16:byID:nilIffAbsent] (result == nil) <==> !(id in fieldset(nl.Nodes, Id))
+//@   ensures [C16:byID:match] result != nil ==> result.Id == id && (result in elems(nl.Nodes))
+//@   invariant L0: !(id in fieldsetn(nl.Nodes, Id, _i))
+
+//@ func NodeList.GetNodesByIdentifier
+//@   props C11, C16
+//@   inline
+//@   assigns \nothing
+//@   ensures [C16:byIdentifier:exact] forall p *Node :: (p in elems(result)) <==> ((p in elems(nl.Nodes)) && p.Identifiers != nil && (idType in p.Identifiers) && p.Identifiers[idType] == v)
+//@   ensures [C16:byIdentifier:type] idType == SoftwareIdentifierTypeFromString(t)
+//@   invariant L0: forall p *Node :: (p in elems(ret)) <==> ((p in elemsn(nl.Nodes, _i)) && p.Identifiers != nil && (idType in p.Identifiers) && p.Identifiers[idType] == v)
+
+//@ func NodeList.GetRootNodes
+//@   props C11, C16
+//@   inline
+//@   assigns \nothing
+//@   requires [C16:pre] validNL(nl)
+//@   ensures [C16:roots:exact] forall p *Node :: (p in elems(result)) <==> ((p in elems(nl.Nodes)) && (p.Id in elems(nl.RootElements)))
+//@   invariant L0: [C16:inv] index != nil && fresh(index) && (forall k string :: (k in index) <==> (k in elemsn(nl.RootElements, _i)))
+//@   invariant L1: [C16:inv] index != nil && (forall k string :: (k in index) <==> (k in elems(nl.RootElements)))
+//@   invariant L1: [C16:inv] forall p *Node :: (p in elems(ret)) <==> ((p in elemsn(nl.Nodes, _i)) && (p.Id in elems(nl.RootElements)))
+
+//@ func Document.GetRootNodes
+//@   props C11
+//@   requires d.NodeList != nil
+//@   assigns \nothing
+
+//@ func NodeList.GetMatchingNode
+//@   props C11
+//@   requires node != nil
+//@   assigns \nothing
+
+//@ func NodeList.GetEdgeByType
+//@   props C11, C16
+//@   inline
+//@   assigns \nothing
+//@   ensures [C16:edgeByType:nilIffAbsent] (result == nil) <==> !(exists e *Edge :: (e in elems(nl.Edges)) && e.From == fromElement && e.Type == t)
+//@   ensures [C16:edgeByType:match] result != nil ==> (result in elems(nl.Edges)) && result.From == fromElement && result.Type == t
+//@   invariant L0: forall e *Edge :: (e in elemsn(nl.Edges, _i)) ==> !(e.From == fromElement && e.Type == t)
+
+//@ func NodeList.GetNodesByPurlType
+//@   props C11
+//@   assigns \nothing
+
+//@ func NodeList.indexNodes
+//@   props C11, C08
+//@   inline
+//@   assigns \nothing
+//@   ensures [C08:indexNodes:keys] result != nil && fresh(result) && (forall k string :: (k in result) <==> (k in fieldset(nl.Nodes, Id)))
+//@   invariant L0: [C08:idx] ret != nil && fresh(ret) && (forall k string :: (k in ret) <==> (k in fieldsetn(nl.Nodes, Id, _i)))
+//@   invariant L0: [C08:idx] forall k string :: (k in ret) ==> ret[k] != nil && ret[k].Id == k && (ret[k] in elemsn(nl.Nodes, _i))
+//@   invariant L0: [C08:idx] uniqueIdx(nl) ==> (forall i0 int :: 0 <= i0 && i0 < _i ==> (nl.Nodes[i0].Id in ret) && ret[nl.Nodes[i0].Id] == nl.Nodes[i0])
+//@   ensures [C08:indexNodes:byIndex] uniqueIdx(nl) ==> (forall i0 int :: 0 <= i0 && i0 < len(nl.Nodes) ==> (nl.Nodes[i0].Id in result) && result[nl.Nodes[i0].Id] == nl.Nodes[i0])
+//@   ensures [C08:indexNodes:values] forall k string :: (k in result) ==> result[k] != nil && result[k].Id == k && (result[k] in elems(nl.Nodes))
+
+//@ func NodeList.indexEdges
+//@   props C11, C04, C08
+//@   requires validNL(nl)
+//@   assigns \nothing
+//@   ensures [indexEdges:nonNil] forall f string, t Edge_Type, a int :: (f in result) && (t in result[f]) && 0 <= a && a < len(result[f][t]) ==> result[f][t][a] != nil
+//@   invariant L0: forall f string, t Edge_Type, a int :: (f in index) && (t in index[f]) && 0 <= a && a < len(index[f][t]) ==> index[f][t][a] != nil
+//@   ensures [indexEdges:shape] result != nil && fresh(result) && (forall f string, t Edge_Type :: (f in result) && (t in result[f]) ==> len(result[f][t]) >= 1 && fresh(result[f][t]) && result[f][t][0] != nil && (result[f][t][0] in elems(nl.Edges)))
+//@   invariant L0: index != nil && fresh(index)
+//@   invariant L0: forall f string :: (f in index) ==> index[f] != nil && fresh(index[f])
+//@   invariant L0: forall g string, h string :: (g in index) && (h in index) && g != h ==> index[g] != index[h]
+//@   invariant L0: forall f string, t Edge_Type :: (f in index) && (t in index[f]) ==> len(index[f][t]) >= 1 && fresh(index[f][t])
+//@   invariant L0: forall f string, t Edge_Type :: (f in index) && (t in index[f]) ==> index[f][t][0] != nil && (index[f][t][0] in elems(nl.Edges))
+
+//@ func NodeList.indexRootElements
+//@   props C11, C08
+//@   inline
+//@   assigns \nothing
+//@   ensures [C08:indexRoots:keys] result != nil && fresh(result) && (forall k string :: (k in result) <==> (k in elems(nl.RootElements)))
+//@   invariant L0: [C08:idx] index != nil && fresh(index) && (forall k string :: (k in index) <==> (k in elemsn(nl.RootElements, _i)))
+
+//@ func NodeList.indexNodesByHash
+//@   props C11
+//@   inline
+//@   assigns \nothing
+
+//@ func NodeList.indexNodesByPurl
+//@   props C11
+//@   inline
+//@   assigns \nothing
+
+// ---- traversal ----
+
+// NodeGraph: only the frame condition is under contract. Its shape postconditions
+// (drafted: absent/shape/root/subset/unique with visited-set invariants) need
+// "no nil entry" of the edge-index buckets in set form to establish
+// cleanEdges' precondition, which in turn needs pairwise distinct bucket
+// arrays in indexEdges' invariant; not done.
+//@ func NodeList.NodeGraph
+//@   props C11
+//@   assigns \nothing
+
+//@ func NodeList.NodeSiblings
+//@   props C11, C15
+//@   assigns \nothing
+//@   requires validNL(nl)
+//@   ensures [C15:siblings:nil] (id == "") <==> (result == nil)
+//@   ensures [C15:siblings:shape] result != nil ==> fresh(result) && validNL(result) && closedEdges(result) && normalisedNL(result)
+//@   ensures [C15:siblings:root] result != nil && (id in fieldset(nl.Nodes, Id)) ==> len(result.RootElements) == 1 && result.RootElements[0] == id && (id in fieldset(result.Nodes, Id))
+//@   ensures [C15:siblings:absent] result != nil && !(id in fieldset(nl.Nodes, Id)) ==> len(result.Nodes) == 0 && len(result.RootElements) == 0 && len(result.Edges) == 0
+//@   ensures [C15:siblings:complete] result != nil && (id in fieldset(nl.Nodes, Id)) ==> (forall r *Edge, j int :: (r in elems(nl.Edges)) && r.From == id && 0 <= j && j < len(r.To) && (r.To[j] in fieldset(nl.Nodes, Id)) ==> (r.To[j] in fieldset(result.Nodes, Id)))
+//@   ensures [C15:siblings:subset] result != nil ==> (forall a int :: 0 <= a && a < len(result.Nodes) ==> (result.Nodes[a] in elems(nl.Nodes)))
+//@   ensures [C15:siblings:unique] result != nil ==> (forall a int, b int :: 0 <= a && a < b && b < len(result.Nodes) ==> result.Nodes[a].Id != result.Nodes[b].Id)
+//@   invariant L0: [C15:inv] (forall k string :: (k in ni) ==> ni[k] != nil && ni[k].Id == k && (ni[k] in elems(nl.Nodes))) && (id in ni) && ni != nil && fresh(ni)
+//@   invariant L0: [C15:inv] !(nil in elems(nodelist.Edges)) && len(nodelist.Nodes) == 0 && len(nodelist.RootElements) == 1 && nodelist.RootElements[0] == id && allocated(arr(nodelist.RootElements))
+//@   invariant L0: [C15:inv] forall r *Edge, j int :: (r in elemsn(nl.Edges, _i)) && r.From == id && 0 <= j && j < len(r.To) && (r.To[j] in fieldset(nl.Nodes, Id)) ==> (r.To[j] in ni)
+//@   invariant L1: [C15:inv] (forall k string :: (k in ni) ==> ni[k] != nil && ni[k].Id == k && (ni[k] in elems(nl.Nodes))) && (id in ni) && ni != nil && fresh(ni)
+//@   invariant L1: [C15:inv] !(nil in elems(nodelist.Edges)) && len(nodelist.Nodes) == 0 && len(nodelist.RootElements) == 1 && nodelist.RootElements[0] == id && allocated(arr(nodelist.RootElements))
+//@   invariant L1: [C15:inv] forall r *Edge, j int :: (r in elemsn(nl.Edges, _i1)) && r.From == id && 0 <= j && j < len(r.To) && (r.To[j] in fieldset(nl.Nodes, Id)) ==> (r.To[j] in ni)
+//@   invariant L1: [C15:inv] r != nil && r.From == id && (forall j int :: 0 <= j && j < _i && (r.To[j] in fieldset(nl.Nodes, Id)) ==> (r.To[j] in ni))
+//@   invariant L2: [C15:inv] (forall k string :: (k in ni) ==> ni[k] != nil && ni[k].Id == k && (ni[k] in elems(nl.Nodes))) && (id in ni) && ni != nil && fresh(ni)
+//@   invariant L2: [C15:inv] !(nil in elems(nodelist.Edges)) && !(nil in elems(nodelist.Nodes)) && len(nodelist.RootElements) == 1 && nodelist.RootElements[0] == id
+//@   invariant L2: [C15:inv] forall r *Edge, j int :: (r in elems(nl.Edges)) && r.From == id && 0 <= j && j < len(r.To) && (r.To[j] in fieldset(nl.Nodes, Id)) ==> (r.To[j] in ni)
+//@   invariant L2: [C15:inv] (forall x string :: (x in fieldset(nodelist.Nodes, Id)) <==> (x in _V)) && (forall k string :: (k in _V) ==> (k in ni))
+//@   invariant L2: [C15:inv] (forall a int :: 0 <= a && a < len(nodelist.Nodes) ==> (nodelist.Nodes[a].Id in _V) && (nodelist.Nodes[a] in elems(nl.Nodes))) && (forall a int, b int :: 0 <= a && a < b && b < len(nodelist.Nodes) ==> nodelist.Nodes[a].Id != nodelist.Nodes[b].Id)
+
+//@ func NodeList.NodeDescendants
+//@   props C11, C15
+//@   assigns \nothing
+//@   requires validNL(nl)
+//@   ensures [C15:descendants:shape] result != nil && validNL(result) && closedEdges(result) && normalisedNL(result)
+//@   ensures [C15:descendants:rootsClosed] closedRoots(result)
+//@   ensures [C15:descendants:root] (id in fieldset(nl.Nodes, Id)) && maxDepth >= 1 ==> len(result.RootElements) == 1 && result.RootElements[0] == id && (id in fieldset(result.Nodes, Id))
+//@   ensures [C15:descendants:absent] !(id in fieldset(nl.Nodes, Id)) ==> len(result.Nodes) == 0 && len(result.RootElements) == 0 && len(result.Edges) == 0
+//@   ensures [C15:descendants:subset] forall a int :: 0 <= a && a < len(result.Nodes) ==> (result.Nodes[a] in elems(nl.Nodes))
+//@   ensures [C15:descendants:unique] forall a int, b int :: 0 <= a && a < b && b < len(result.Nodes) ==> result.Nodes[a].Id != result.Nodes[b].Id
+//@   invariant L0: [C15:inv] startNode != nil && startNode.Id == id && (startNode in elems(nl.Nodes)) && len(nl2.Nodes) == 0 && len(nl2.RootElements) == 1 && nl2.RootElements[0] == id && nl2.Edges == nl.Edges
+//@   invariant L0: [C15:inv] siblings != nil && fresh(siblings)
+//@   invariant L0: [C15:inv] forall k string :: (k in siblings) ==> siblings[k] != nil && siblings[k].Id == k && (siblings[k] in elems(nl.Nodes))
+//@   invariant L0: [C15:inv] forall a int :: 0 <= a && a < len(newLoopNodes) ==> newLoopNodes[a] != nil && (newLoopNodes[a] in elems(nl.Nodes))
+//@   invariant L1: [C15:inv] startNode != nil && startNode.Id == id && (startNode in elems(nl.Nodes)) && len(nl2.Nodes) == 0 && len(nl2.RootElements) == 1 && nl2.RootElements[0] == id && nl2.Edges == nl.Edges
+//@   invariant L1: [C15:inv] siblings != nil && fresh(siblings)
+//@   invariant L1: [C15:inv] forall k string :: (k in siblings) ==> siblings[k] != nil && siblings[k].Id == k && (siblings[k] in elems(nl.Nodes))
+//@   invariant L1: [C15:inv] forall a int :: 0 <= a && a < len(newLoopNodes) ==> newLoopNodes[a] != nil && (newLoopNodes[a] in elems(nl.Nodes))
+//@   invariant L1: [C15:inv] forall a int :: 0 <= a && a < len(loopNodes) ==> loopNodes[a] != nil && (loopNodes[a] in elems(nl.Nodes))
+//@   invariant L2: [C15:inv] startNode != nil && startNode.Id == id && (startNode in elems(nl.Nodes)) && len(nl2.Nodes) == 0 && len(nl2.RootElements) == 1 && nl2.RootElements[0] == id && nl2.Edges == nl.Edges
+//@   invariant L2: [C15:inv] siblings != nil && fresh(siblings)
+//@   invariant L2: [C15:inv] forall k string :: (k in siblings) ==> siblings[k] != nil && siblings[k].Id == k && (siblings[k] in elems(nl.Nodes))
+//@   invariant L2: [C15:inv] forall a int :: 0 <= a && a < len(newLoopNodes) ==> newLoopNodes[a] != nil && (newLoopNodes[a] in elems(nl.Nodes))
+//@   invariant L2: [C15:inv] forall a int :: 0 <= a && a < len(loopNodes) ==> loopNodes[a] != nil && (loopNodes[a] in elems(nl.Nodes))
+//@   invariant L3: [C15:inv] startNode != nil && startNode.Id == id && (startNode in elems(nl.Nodes)) && len(nl2.Nodes) == 0 && len(nl2.RootElements) == 1 && nl2.RootElements[0] == id && nl2.Edges == nl.Edges
+//@   invariant L3: [C15:inv] siblings != nil && fresh(siblings)
+//@   invariant L3: [C15:inv] forall k string :: (k in siblings) ==> siblings[k] != nil && siblings[k].Id == k && (siblings[k] in elems(nl.Nodes))
+//@   invariant L3: [C15:inv] forall a int :: 0 <= a && a < len(newLoopNodes) ==> newLoopNodes[a] != nil && (newLoopNodes[a] in elems(nl.Nodes))
+//@   invariant L3: [C15:inv] forall a int :: 0 <= a && a < len(loopNodes) ==> loopNodes[a] != nil && (loopNodes[a] in elems(nl.Nodes))
+//@   invariant L4: [C15:inv] startNode != nil && startNode.Id == id && (startNode in elems(nl.Nodes)) && len(nl2.Nodes) == 0 && len(nl2.RootElements) == 1 && nl2.RootElements[0] == id && nl2.Edges == nl.Edges
+//@   invariant L4: [C15:inv] siblings != nil && fresh(siblings)
+//@   invariant L4: [C15:inv] forall k string :: (k in siblings) ==> siblings[k] != nil && siblings[k].Id == k && (siblings[k] in elems(nl.Nodes))
+//@   invariant L4: [C15:inv] forall a int :: 0 <= a && a < len(newLoopNodes) ==> newLoopNodes[a] != nil && (newLoopNodes[a] in elems(nl.Nodes))
+//@   invariant L4: [C15:inv] forall a int :: 0 <= a && a < len(loopNodes) ==> loopNodes[a] != nil && (loopNodes[a] in elems(nl.Nodes))
+//@   invariant L0: [C15:inv] i >= 1 ==> (id in siblings)
+//@   invariant L1: [C15:inv] (i >= 1 || _i >= 1) ==> (id in siblings)
+//@   invariant L1: [C15:inv] (i == 0 && _i == 0) ==> len(loopNodes) == 1 && loopNodes[0] == startNode
+//@   invariant L2: [C15:inv] id in siblings
+//@   invariant L3: [C15:inv] id in siblings
+//@   invariant L4: [C15:inv] id in siblings
+//@   invariant L5: [C15:inv] siblings != nil && fresh(siblings)
+//@   invariant L5: [C15:inv] forall k string :: (k in siblings) ==> siblings[k] != nil && siblings[k].Id == k && (siblings[k] in elems(nl.Nodes))
+//@   invariant L5: [C15:inv] startNode != nil && startNode.Id == id && len(nl2.RootElements) == 1 && nl2.RootElements[0] == id && nl2.Edges == nl.Edges && (maxDepth >= 1 ==> (id in siblings))
+//@   invariant L5: [C15:inv] (forall x string :: (x in fieldset(nl2.Nodes, Id)) <==> (x in _V)) && (forall k string :: (k in _V) ==> (k in siblings))
+//@   invariant L5: [C15:inv] forall a int :: 0 <= a && a < len(nl2.Nodes) ==> nl2.Nodes[a] != nil && (nl2.Nodes[a].Id in _V) && (nl2.Nodes[a] in elems(nl.Nodes))
+//@   invariant L5: [C15:inv] forall a int, b int :: 0 <= a && a < b && b < len(nl2.Nodes) ==> nl2.Nodes[a].Id != nl2.Nodes[b].Id
+//@   invariant L5: [C15:inv] !(nil in elems(nl2.Nodes))
+
+//@ func NodeList.indexConnectedNodes
+//@   props C11, C15
+//@   assigns \nothing
+//@   requires validNL(nl)
+//@   ensures [C15:connected:start] (id in result) <==> (id in fieldset(nl.Nodes, Id))
+//@   ensures [C15:connected:index] result != nil && fresh(result) && (forall k string :: (k in result) ==> result[k] != nil && result[k].Id == k && (result[k] in elems(nl.Nodes)))
+
+//@ func NodeList.connectedIndexRecursion
+//@   props C11, C15
+//@   requires boundaries != nil && connectedNodes != nil
+//@   requires [C15:pre] validNL(nl) && *connectedNodes != nil && (forall k string :: (k in (*connectedNodes)) ==> (*connectedNodes)[k] != nil && (*connectedNodes)[k].Id == k && ((*connectedNodes)[k] in elems(nl.Nodes)))
+//@   assigns connectedNodes.*, (*connectedNodes)[*]
+//@   ensures [C15:connected:monotone] forall k string :: (k in old(keys(*connectedNodes))) ==> (k in *connectedNodes)
+//@   invariant L0: [C15:inv] forall k string :: (k in old(keys(*connectedNodes))) ==> (k in *connectedNodes)
+//@   ensures [C15:connected:index] *connectedNodes == old(*connectedNodes) && (forall k string :: (k in (*connectedNodes)) ==> (*connectedNodes)[k] != nil && (*connectedNodes)[k].Id == k && ((*connectedNodes)[k] in elems(nl.Nodes)))
+//@   invariant L0: [C15:inv] *connectedNodes == old(*connectedNodes) && (forall k string :: (k in (*connectedNodes)) ==> (*connectedNodes)[k] != nil && (*connectedNodes)[k].Id == k && ((*connectedNodes)[k] in elems(nl.Nodes)))
+//@   invariant L0: [C15:inv] siblings != nil && (forall a int :: 0 <= a && a < len(siblings.Nodes) ==> siblings.Nodes[a] != nil && (siblings.Nodes[a] in elems(nl.Nodes)))
+
+// ---------------------------------------------------------------------------
+// C01: mutually inverse enum tables (SPDX 2.3)
+// ---------------------------------------------------------------------------
+
+//@ table edgeTypeSPDX2RoundTrip [C01]: forall t Edge_Type :: 1 <= t && t <= 44 ==> EdgeTypeFromSPDX2(Edge_Type.ToSPDX2(t)) == t
+//@ table hashAlgoSPDXNamed [C01]: forall h HashAlgorithm :: 1 <= h && h <= 17 && h != 13 ==> HashAlgorithm.ToSPDX(h) != ""
+//@ table hashAlgoSPDXRoundTrip [C01]: forall h HashAlgorithm :: 1 <= h && h <= 17 && HashAlgorithm.ToSPDX(h) != "" ==> HashAlgorithmFromSPDX(HashAlgorithm.ToSPDX(h)) == h
+//@ table identifierSPDXType [C01]: forall i SoftwareIdentifierType :: 1 <= i && i <= 4 ==> SoftwareIdentifierTypeFromSPDXExtRefType(SoftwareIdentifierType.ToSPDX2Type(i)) == i
+
+// ---------------------------------------------------------------------------
+// C09: attribute precedence (generated per field from the Node struct of the
+// current working tree; Id is the identity of a shared node and is exempt)
+// ---------------------------------------------------------------------------
+
+//@ func Node.Update
+//@   props C09, C10
+//@   requires n2 != nil
+//@   assigns n.*
+//@   ensures-each Node[string] except Id: [C09:update:$f] n.$f == old(n2.$f != "" ? n2.$f : n.$f)
+//@   ensures-each Node[enum]: [C09:update:$f] n.$f == old(n2.$f != 0 ? n2.$f : n.$f)
+//@   ensures-each Node[slice,ptrslice,map]: [C09:update:$f] n.$f == old(len(n2.$f) > 0 ? n2.$f : n.$f)
+//@   ensures-each Node[ptr]: [C09:update:$f] n.$f == old(n2.$f != nil ? n2.$f : n.$f)
+//@   ensures [C09:update:Id] n.Id == old(n.Id)
+
+//@ func Node.Augment
+//@   props C09
+//@   requires n2 != nil
+//@   assigns n.*
+//@   ensures-each Node[string] except Id: [C09:augment:$f] n.$f == old(n.$f != "" ? n.$f : n2.$f)
+//@   ensures-each Node[enum]: [C09:augment:$f] n.$f == old(n.$f != 0 ? n.$f : n2.$f)
+//@   ensures-each Node[slice,ptrslice,map]: [C09:augment:$f] n.$f == old(len(n.$f) > 0 ? n.$f : (len(n2.$f) > 0 ? n2.$f : n.$f))
+//@   ensures-each Node[ptr]: [C09:augment:$f] n.$f == old(n.$f != nil ? n.$f : n2.$f)
+//@   ensures [C09:augment:Id] n.Id == old(n.Id)
+
+// ---------------------------------------------------------------------------
+// C14: node diff
+// ---------------------------------------------------------------------------
+
+// elems(s) is the set of elements of slice s, elemsn(s, n) of its first n
+// elements (ghost set view, see DESIGN.md)
+
+//@ func contains
+//@   props C14
+//@   assigns \nothing
+//@   ensures [C14:contains] result <==> (e in elems(s))
+//@   invariant L0: !(e in elemsn(s, _i))
+
+//@ func diffSlice
+//@   props C14
+//@   assigns \nothing
+//@   ensures [C14:diffSlice:added] forall x T :: (x in elems(added)) <==> ((x in elems(arr2)) && !(x in elems(arr1)))
+//@   ensures [C14:diffSlice:removed] forall x T :: (x in elems(removed)) <==> ((x in elems(arr1)) && !(x in elems(arr2)))
+//@   ensures [C14:diffSlice:count] count == (len(added) + len(removed) > 0 ? 1 : 0)
+//@   ensures [C14:diffSlice:countIff] count == (sameElems(arr1, arr2) ? 0 : 1)
+//@   ensures [C14:diffSlice:fresh] fresh(added) && fresh(removed)
+//@   invariant L0: forall x T :: (x in elems(added)) <==> ((x in elemsn(arr2, _i)) && !(x in elems(arr1)))
+//@   invariant L1: (forall x T :: (x in elems(added)) <==> ((x in elems(arr2)) && !(x in elems(arr1)))) && (forall y T :: (y in elems(removed)) <==> ((y in elemsn(arr1, _i)) && !(y in elems(arr2))))
+
+//@ func diffMap
+//@   props C14
+//@   assigns \nothing
+//@   ensures [C14:diffMap:added] forall k K :: (k in added) <==> ((k in map2) && !((k in map1) && map1[k] == map2[k]))
+//@   ensures [C14:diffMap:addedValues] forall k K :: (k in added) ==> added[k] == map2[k]
+//@   ensures [C14:diffMap:removed] forall k K :: (k in removed) <==> ((k in map1) && !(k in map2))
+//@   ensures [C14:diffMap:removedValues] forall k K :: (k in removed) ==> removed[k] == map1[k]
+//@   ensures [C14:diffMap:count] count == (len(added) + len(removed) > 0 ? 1 : 0)
+//@   ensures [C14:diffMap:countIff] count == (sameMap(map1, map2) ? 0 : 1)
+//@   ensures [C14:diffMap:fresh] fresh(added) && fresh(removed) && added != removed
+//@   invariant L0: added != nil && removed != nil && added != removed && added != map1 && added != map2 && fresh(added) && (forall k K :: (k in _V) ==> (k in map2)) && (forall k K :: (k in added) <==> ((k in _V) && !((k in map1) && map1[k] == map2[k]))) && (forall k K :: (k in added) ==> added[k] == map2[k])
+//@   invariant L1: added != nil && removed != nil && added != removed && removed != map1 && removed != map2 && fresh(removed) && fresh(added) && (forall k K :: (k in _V) ==> (k in map1)) && (forall k K :: (k in added) <==> ((k in map2) && !((k in map1) && map1[k] == map2[k]))) && (forall k K :: (k in added) ==> added[k] == map2[k]) && (forall k K :: (k in removed) <==> ((k in _V) && !(k in map2))) && (forall k K :: (k in removed) ==> removed[k] == map1[k])
+
+//@ func diffDates
+//@   props C14
+//@   assigns \nothing
+//@   ensures [C14:diffDates:count] count == ((((dt1 == nil) != (dt2 == nil)) || (dt1 != nil && dt2 != nil && time.Time.Unix(timestamppb.Timestamp.AsTime(dt1)) != time.Time.Unix(timestamppb.Timestamp.AsTime(dt2)))) ? 1 : 0)
+//@   ensures [C14:diffDates:added] added == (count == 1 && dt2 != nil ? dt2 : nil)
+//@   ensures [C14:diffDates:removed] removed == (count == 1 && dt2 == nil ? dt1 : nil)
+//@   ensures [C14:diffDates:countIff] count == (sameSecond(dt1, dt2) ? 0 : 1)
+
+// element identity of nested messages is their flattened string (pure methods)
+//@ fieldset-of sbom.Node: Id
+//@ imageset-of sbom.Person: flatString
+//@ imageset-of sbom.ExternalReference: flatString
+
+//@ func diffList
+//@   props C14
+//@   assigns \nothing
+//@   ensures [C14:diffList:added] forall x string :: (x in imageset(added, flatString)) <==> ((x in imageset(list2, flatString)) && !(x in imageset(list1, flatString)))
+//@   ensures [C14:diffList:removed] forall x string :: (x in imageset(removed, flatString)) <==> ((x in imageset(list1, flatString)) && !(x in imageset(list2, flatString)))
+//@   ensures [C14:diffList:count] count == (len(added) + len(removed) > 0 ? 1 : 0)
+//@   ensures [C14:diffList:countIff] count == (sameImages(list1, list2, flatString) ? 0 : 1)
+//@   ensures [C14:diffList:fresh] fresh(added) && fresh(removed)
+//@   invariant L0: forall x string :: (x in idx1) <==> (x in imagesetn(list1, flatString, _i))
+//@   invariant L1: (forall x string :: (x in idx1) <==> (x in imageset(list1, flatString))) && (forall y string :: (y in idx2) <==> (y in imagesetn(list2, flatString, _i)))
+//@   invariant L2: (forall x string :: (x in idx1) <==> (x in imageset(list1, flatString))) && (forall y string :: (y in idx2) <==> (y in imageset(list2, flatString))) && (forall z string :: (z in imageset(added, flatString)) <==> ((z in imagesetn(list2, flatString, _i)) && !(z in imageset(list1, flatString))))
+//@   invariant L3: (forall y string :: (y in idx2) <==> (y in imageset(list2, flatString))) && (forall z string :: (z in imageset(added, flatString)) <==> ((z in imageset(list2, flatString)) && !(z in imageset(list1, flatString)))) && (forall w string :: (w in imageset(removed, flatString)) <==> ((w in imagesetn(list1, flatString, _i)) && !(w in imageset(list2, flatString))))
+
+// two dates are equal "to the second"
+//@ pred sameSecond(d1 *timestamppb.Timestamp, d2 *timestamppb.Timestamp) = (d1 == nil && d2 == nil) || (d1 != nil && d2 != nil && time.Time.Unix(timestamppb.Timestamp.AsTime(d1)) == time.Time.Unix(timestamppb.Timestamp.AsTime(d2)))
+
+// Node.Diff: per field (generated from the Node struct of the working tree)
+//   differs / count:  the difference count is the number of differing attributes and the result is nil iff it is 0
+//   rebuild:          applying (Added, Removed) to the first node's attribute yields the second node's attribute
+//@ func Node.Diff
+//@   props C14
+//@   requires n2 != nil
+//@   assigns \nothing
+//@   ensures-agg Node: [C14:diff:nilIffEqual] (result == nil) <==> ($AND[string,enum]{n.$f == n2.$f} && $AND[slice]{sameElems(n.$f, n2.$f)} && $AND[ptrslice]{sameImages(n.$f, n2.$f, flatString)} && $AND[map]{sameMap(n.$f, n2.$f)} && $AND[ptr]{sameSecond(n.$f, n2.$f)})
+//@   ensures-agg Node: [C14:diff:count] result != nil ==> result.DiffCount == $SUM[string,enum]{n.$f == n2.$f ? 0 : 1} + $SUM[slice]{sameElems(n.$f, n2.$f) ? 0 : 1} + $SUM[ptrslice]{sameImages(n.$f, n2.$f, flatString) ? 0 : 1} + $SUM[map]{sameMap(n.$f, n2.$f) ? 0 : 1} + $SUM[ptr]{sameSecond(n.$f, n2.$f) ? 0 : 1}
+//@   ensures [C14:diff:shape] result != nil ==> result.Added != nil && result.Removed != nil
+//@   ensures-each Node[string]: [C14:rebuild:$f] result != nil ==> (result.Removed.$f != "" ? "" : (result.Added.$f != "" ? result.Added.$f : n.$f)) == n2.$f
+//@   ensures-each Node[enum]: [C14:rebuild:$f] result != nil ==> (result.Removed.$f != 0 ? 0 : (result.Added.$f != 0 ? result.Added.$f : n.$f)) == n2.$f
+//@   ensures-each Node[slice]: [C14:rebuild:$f] result != nil ==> rebuildsElems(n.$f, result.Added.$f, result.Removed.$f, n2.$f)
+//@   ensures-each Node[ptrslice]: [C14:rebuild:$f] result != nil ==> rebuildsImages(n.$f, result.Added.$f, result.Removed.$f, n2.$f, flatString)
+//@   ensures-each Node[map]: [C14:rebuild:$f] result != nil ==> rebuildsMap(n.$f, result.Added.$f, result.Removed.$f, n2.$f)
+//@   ensures-each Node[ptr]: [C14:rebuild:$f] result != nil ==> sameSecond(result.Removed.$f != nil ? nil : (result.Added.$f != nil ? result.Added.$f : n.$f), n2.$f)
+
+//@ func diff[string]
+//@   props C14
+//@   assigns \nothing
+//@   ensures [C14:diff:scalar] added == (v1 == v2 || v2 == "" ? "" : v2) && removed == (v1 != v2 && v2 == "" ? v1 : "") && count == (v1 == v2 ? 0 : 1)
+
+// ---------------------------------------------------------------------------
+// C04 / C05 / C08: list-editing operations used by the parsers (safety part)
+// ---------------------------------------------------------------------------
+
+// two node lists whose slices do not share backing arrays (operands are separated)
+//@ pred separatedNL(a *NodeList, b *NodeList) = a != b && (arr(a.Nodes) == nil || arr(a.Nodes) != arr(b.Nodes)) && (arr(a.Edges) == nil || arr(a.Edges) != arr(b.Edges)) && (arr(a.RootElements) == nil || arr(a.RootElements) != arr(b.RootElements))
+
+// a node list without nil entries
+//@ pred validNL(nl *NodeList) = nl != nil && !(nil in elems(nl.Nodes)) && !(nil in elems(nl.Edges))
+
+//@ func NodeList.cleanEdges
+//@   props C04, C08, C12
+//@   requires validNL(nl)
+//@   assigns nl.Edges
+//@   owns
+//@   ensures [validNL] validNL(nl)
+//@   ensures [C08:cleanEdges:freshEdges] fresh(arr(nl.Edges)) && (forall e *Edge :: (e in elems(nl.Edges)) ==> fresh(e) && (arr(e.To) == nil || fresh(arr(e.To))))
+//@   ensures [C08:cleanEdges:others] nl.Nodes == old(nl.Nodes) && nl.RootElements == old(nl.RootElements)
+//@   ensures [C08:cleanEdges:closedFrom] forall e *Edge :: (e in elems(nl.Edges)) ==> (e.From in fieldset(nl.Nodes, Id)) && len(e.To) > 0
+//@   ensures [C08:cleanEdges:oneEdgePerSourceAndType] forall i int, j int :: 0 <= i && i < j && j < len(nl.Edges) ==> !(nl.Edges[i].From == nl.Edges[j].From && nl.Edges[i].Type == nl.Edges[j].Type)
+//@   invariant L0: [C08:inv] (forall k string :: (k in seenCache) ==> k == (seenCache[k].From + "+++" + Edge_Type.String(seenCache[k].Type)))
+//@   invariant L1: [C08:inv] (forall k string :: (k in seenCache) ==> k == (seenCache[k].From + "+++" + Edge_Type.String(seenCache[k].Type)))
+//@   invariant L2: [C08:inv] (forall k string :: (k in seenCache) ==> k == (seenCache[k].From + "+++" + Edge_Type.String(seenCache[k].Type)))
+//@   invariant L3: [C08:inv] (forall k string :: (k in seenCache) ==> k == (seenCache[k].From + "+++" + Edge_Type.String(seenCache[k].Type)))
+//@   invariant L2: [C08:inv] forall i int :: 0 <= i && i < len(newEdges) ==> ((newEdges[i].From + "+++" + Edge_Type.String(newEdges[i].Type)) in _V)
+//@   invariant L2: [C08:inv] forall i int, j int :: 0 <= i && i < j && j < len(newEdges) ==> (newEdges[i].From + "+++" + Edge_Type.String(newEdges[i].Type)) != (newEdges[j].From + "+++" + Edge_Type.String(newEdges[j].Type))
+//@   invariant L3: [C08:inv] forall i int :: 0 <= i && i < len(newEdges) ==> ((newEdges[i].From + "+++" + Edge_Type.String(newEdges[i].Type)) in _V1) && (newEdges[i].From + "+++" + Edge_Type.String(newEdges[i].Type)) != f
+//@   invariant L3: [C08:inv] forall i int, j int :: 0 <= i && i < j && j < len(newEdges) ==> (newEdges[i].From + "+++" + Edge_Type.String(newEdges[i].Type)) != (newEdges[j].From + "+++" + Edge_Type.String(newEdges[j].Type))
+//@   ensures [C08:cleanEdges:noRepeatedTargets] forall i int :: 0 <= i && i < len(nl.Edges) ==> (forall a int, b int :: 0 <= a && a < b && b < len(nl.Edges[i].To) ==> nl.Edges[i].To[a] != nl.Edges[i].To[b])
+//@   invariant L0: [C08:inv] (forall k1 string, k2 string :: (k1 in seenCache) && (k2 in seenCache) && k1 != k2 ==> arr(seenCache[k1].To) != arr(seenCache[k2].To))
+//@   invariant L1: [C08:inv] (forall k1 string, k2 string :: (k1 in seenCache) && (k2 in seenCache) && k1 != k2 ==> arr(seenCache[k1].To) != arr(seenCache[k2].To))
+//@   invariant L2: [C08:inv] (forall k1 string, k2 string :: (k1 in seenCache) && (k2 in seenCache) && k1 != k2 ==> arr(seenCache[k1].To) != arr(seenCache[k2].To))
+//@   invariant L3: [C08:inv] (forall k1 string, k2 string :: (k1 in seenCache) && (k2 in seenCache) && k1 != k2 ==> arr(seenCache[k1].To) != arr(seenCache[k2].To))
+//@   invariant L2: [C08:inv] (forall i int :: 0 <= i && i < len(newEdges) ==> ((newEdges[i].From + "+++" + Edge_Type.String(newEdges[i].Type)) in seenCache) && seenCache[(newEdges[i].From + "+++" + Edge_Type.String(newEdges[i].Type))] == newEdges[i])
+//@   invariant L3: [C08:inv] (forall i int :: 0 <= i && i < len(newEdges) ==> ((newEdges[i].From + "+++" + Edge_Type.String(newEdges[i].Type)) in seenCache) && seenCache[(newEdges[i].From + "+++" + Edge_Type.String(newEdges[i].Type))] == newEdges[i])
+//@   invariant L2: [C08:inv] forall k string :: (k in seenCache) && !(k in _V) ==> len(seenCache[k].To) == 0
+//@   invariant L2: [C08:inv] forall k string :: (k in seenCache) && (k in _V) ==> (forall a int, b int :: 0 <= a && a < b && b < len(seenCache[k].To) ==> seenCache[k].To[a] != seenCache[k].To[b])
+//@   invariant L3: [C08:inv] forall k string :: (k in seenCache) && !(k in _V1) ==> len(seenCache[k].To) == 0
+//@   invariant L3: [C08:inv] forall k string :: (k in seenCache) && (k in _V1) && k != f ==> (forall a int, b int :: 0 <= a && a < b && b < len(seenCache[k].To) ==> seenCache[k].To[a] != seenCache[k].To[b])
+//@   invariant L3: [C08:inv] (f in seenCache) && (forall j int :: 0 <= j && j < len(seenCache[f].To) ==> (seenCache[f].To[j] in _V)) && (forall a int, b int :: 0 <= a && a < b && b < len(seenCache[f].To) ==> seenCache[f].To[a] != seenCache[f].To[b])
+//@   ensures [C08:cleanEdges:closedTo] forall e *Edge :: (e in elems(nl.Edges)) ==> (forall j int :: 0 <= j && j < len(e.To) ==> (e.To[j] in fieldset(nl.Nodes, Id)))
+//@   invariant L0: [C08:inv] (forall k string :: (k in seenCache) ==> len(seenCache[k].To) == 0) && (forall k string, s string :: (k in newTos) && (s in newTos[k]) ==> (s in fieldset(nl.Nodes, Id)))
+//@   invariant L1: [C08:inv] (forall k string :: (k in seenCache) ==> len(seenCache[k].To) == 0) && (forall k string, s string :: (k in newTos) && (s in newTos[k]) ==> (s in fieldset(nl.Nodes, Id)))
+//@   invariant L2: [C08:inv] (forall k string, s string :: (k in newTos) && (s in newTos[k]) ==> (s in fieldset(nl.Nodes, Id)))
+//@   invariant L2: [C08:inv] forall k string :: (k in seenCache) ==> (forall j int :: 0 <= j && j < len(seenCache[k].To) ==> (seenCache[k].To[j] in fieldset(nl.Nodes, Id)))
+//@   invariant L2: [C08:inv] forall e *Edge :: (e in elems(newEdges)) ==> (forall j int :: 0 <= j && j < len(e.To) ==> (e.To[j] in fieldset(nl.Nodes, Id)))
+//@   invariant L3: [C08:inv] (forall k string, s string :: (k in newTos) && (s in newTos[k]) ==> (s in fieldset(nl.Nodes, Id)))
+//@   invariant L3: [C08:inv] forall k string :: (k in seenCache) ==> (forall j int :: 0 <= j && j < len(seenCache[k].To) ==> (seenCache[k].To[j] in fieldset(nl.Nodes, Id)))
+//@   invariant L3: [C08:inv] forall e *Edge :: (e in elems(newEdges)) ==> (forall j int :: 0 <= j && j < len(e.To) ==> (e.To[j] in fieldset(nl.Nodes, Id)))
+//@   invariant L0: [C08:inv] (forall k string :: (k in nodeIndex) <==> (k in fieldset(nl.Nodes, Id))) && (forall k string :: (k in seenCache) ==> (seenCache[k].From in fieldset(nl.Nodes, Id)))
+//@   invariant L1: [C08:inv] (forall k string :: (k in nodeIndex) <==> (k in fieldset(nl.Nodes, Id))) && (forall k string :: (k in seenCache) ==> (seenCache[k].From in fieldset(nl.Nodes, Id)))
+//@   invariant L2: [C08:inv] (forall k string :: (k in seenCache) ==> (seenCache[k].From in fieldset(nl.Nodes, Id))) && (forall e *Edge :: (e in elems(newEdges)) ==> (e.From in fieldset(nl.Nodes, Id)) && len(e.To) > 0)
+//@   invariant L3: [C08:inv] (forall k string :: (k in seenCache) ==> (seenCache[k].From in fieldset(nl.Nodes, Id))) && (forall e *Edge :: (e in elems(newEdges)) ==> (e.From in fieldset(nl.Nodes, Id)) && len(e.To) > 0)
+//@   invariant L2: fresh(arr(newEdges)) && (forall e *Edge :: (e in elems(newEdges)) ==> fresh(e) && (arr(e.To) == nil || fresh(arr(e.To)))) && (forall k string :: (k in seenCache) ==> seenCache[k] != nil && fresh(seenCache[k]) && (arr(seenCache[k].To) == nil || fresh(arr(seenCache[k].To))))
+//@   invariant L3: fresh(arr(newEdges)) && (forall e *Edge :: (e in elems(newEdges)) ==> fresh(e) && (arr(e.To) == nil || fresh(arr(e.To)))) && (forall k string :: (k in seenCache) ==> seenCache[k] != nil && fresh(seenCache[k]) && (arr(seenCache[k].To) == nil || fresh(arr(seenCache[k].To))))
+//@   invariant L0: forall k string :: (k in seenCache) ==> seenCache[k] != nil && fresh(seenCache[k]) && (arr(seenCache[k].To) == nil || fresh(arr(seenCache[k].To)))
+//@   invariant L1: forall k string :: (k in seenCache) ==> seenCache[k] != nil && fresh(seenCache[k]) && (arr(seenCache[k].To) == nil || fresh(arr(seenCache[k].To)))
+
+// C08: well-formedness of the graph (closedness part)
+//@ pred closedRoots(nl *NodeList) = forall r string :: (r in elems(nl.RootElements)) ==> (r in fieldset(nl.Nodes, Id))
+//@ pred closedEdges(nl *NodeList) = forall e *Edge :: (e in elems(nl.Edges)) ==> (e.From in fieldset(nl.Nodes, Id)) && (forall j int :: 0 <= j && j < len(e.To) ==> (e.To[j] in fieldset(nl.Nodes, Id)))
+
+//@ pred normalisedNL(nl *NodeList) = (forall i int, j int :: 0 <= i && i < j && j < len(nl.Edges) ==> !(nl.Edges[i].From == nl.Edges[j].From && nl.Edges[i].Type == nl.Edges[j].Type)) && (forall i int :: 0 <= i && i < len(nl.Edges) ==> len(nl.Edges[i].To) > 0 && (forall a int, b int :: 0 <= a && a < b && b < len(nl.Edges[i].To) ==> nl.Edges[i].To[a] != nl.Edges[i].To[b]))
+
+//@ func NodeList.RemoveNodes
+//@   props C04, C08
+//@   requires validNL(nl) && closedRoots(nl)
+//@   assigns nl.Nodes, nl.Edges, nl.RootElements
+//@   ensures [validNL] validNL(nl)
+//@   ensures [C08:remove:exactly] forall x string :: (x in fieldset(nl.Nodes, Id)) <==> ((x in old(fieldset(nl.Nodes, Id))) && !(x in elems(ids)))
+//@   ensures [C08:remove:rootsClosed] closedRoots(nl)
+//@   ensures [C08:remove:edgesClosed] closedEdges(nl)
+//@   ensures [C08:remove:normalised] normalisedNL(nl)
+//@   invariant L0: [C08:inv] forall x string :: (x in idDict) <==> (x in elemsn(ids, _i))
+//@   invariant L1: [C08:inv] forall x string :: (x in idDict) <==> (x in elems(ids))
+//@   invariant L1: [C08:inv] !(nil in elems(newNodeList))
+//@   invariant L1: [C08:inv] forall y string :: (y in fieldset(newNodeList, Id)) <==> ((y in fieldsetn(nl.Nodes, Id, _i)) && !(y in elems(ids)))
+//@   invariant L2: [C08:inv] (forall x string :: (x in idDict) <==> (x in elems(ids))) && !(nil in elems(newNodeList)) && (forall y string :: (y in fieldset(newNodeList, Id)) <==> ((y in fieldset(nl.Nodes, Id)) && !(y in elems(ids))))
+//@   invariant L2: [C08:inv] forall r string :: (r in elems(newRootElements)) ==> ((r in elems(nl.RootElements)) && !(r in elems(ids)))
+
+//@ pred uniqueIdx(nl *NodeList) = forall i int, j int :: 0 <= i && i < j && j < len(nl.Nodes) ==> nl.Nodes[i].Id != nl.Nodes[j].Id
+
+// the root list does not share its backing array with an edge's target list
+//@ pred addSep(nl *NodeList, nl2 *NodeList) = (forall e *Edge :: ((e in elems(nl.Edges)) || (e in elems(nl2.Edges))) ==> arr(e.To) == nil || arr(e.To) != arr(nl.RootElements))
+
+
+//@ func NodeList.Add
+//@   props C04, C08, C09
+//@   requires validNL(nl) && validNL(nl2) && separatedNL(nl, nl2)
+//@   assigns nl.Nodes, nl.Edges, nl.RootElements, (nl.Nodes)[*]
+//@   ensures [validNL] validNL(nl)
+//@   ensures [C09:add:ids] (forall x string :: (x in fieldset(nl.Nodes, Id)) <==> ((x in old(fieldset(nl.Nodes, Id))) || (x in fieldset(nl2.Nodes, Id))))
+//@   ensures [C09:add:roots] old(addSep(nl, nl2)) ==> (forall r string :: (r in elems(nl.RootElements)) <==> ((r in old(elems(nl.RootElements))) || (r in elems(nl2.RootElements))))
+//@   ensures [C09:add:keep:Version] forall i0 int :: 0 <= i0 && i0 < old(len(nl.Nodes)) && old(nl.Nodes[i0].Version) != "" ==> nl.Nodes[i0].Version == old(nl.Nodes[i0].Version)
+//@   ensures [C09:add:fill:Version] old(uniqueIdx(nl)) ==> (forall i0 int, j int :: 0 <= i0 && i0 < old(len(nl.Nodes)) && 0 <= j && j < len(nl2.Nodes) && nl2.Nodes[j].Id == nl.Nodes[i0].Id && nl.Nodes[i0].Version == "" ==> nl2.Nodes[j].Version == "")
+//@   invariant L0: [C09:inv] forall i0 int :: 0 <= i0 && i0 < old(len(nl.Nodes)) && old(nl.Nodes[i0].Version) != "" ==> nl.Nodes[i0].Version == old(nl.Nodes[i0].Version)
+//@   invariant L0: [C09:inv] old(uniqueIdx(nl)) ==> (forall i0 int :: 0 <= i0 && i0 < old(len(nl.Nodes)) ==> (nl.Nodes[i0].Id in existingNodes) && existingNodes[nl.Nodes[i0].Id] == nl.Nodes[i0])
+//@   invariant L0: [C09:inv] old(uniqueIdx(nl)) ==> (forall i0 int, j int :: 0 <= i0 && i0 < old(len(nl.Nodes)) && 0 <= j && j < _i && nl2.Nodes[j].Id == nl.Nodes[i0].Id && nl.Nodes[i0].Version == "" ==> nl2.Nodes[j].Version == "")
+//@   invariant L0: [C09:inv] nl2.Nodes == old(nl2.Nodes) && (forall j int :: 0 <= j && j < len(nl2.Nodes) ==> nl2.Nodes[j] == old(nl2.Nodes[j]))
+//@   invariant L0: [C09:inv] len(nl.Nodes) >= old(len(nl.Nodes)) && (forall i0 int :: 0 <= i0 && i0 < old(len(nl.Nodes)) ==> nl.Nodes[i0] == old(nl.Nodes[i0]) && nl.Nodes[i0].Id == old(nl.Nodes[i0].Id))
+//@   invariant L1: [C09:inv] len(nl.Nodes) >= old(len(nl.Nodes)) && (forall i0 int :: 0 <= i0 && i0 < old(len(nl.Nodes)) ==> nl.Nodes[i0] == old(nl.Nodes[i0]))
+//@   invariant L2: [C09:inv] len(nl.Nodes) >= old(len(nl.Nodes)) && (forall i0 int :: 0 <= i0 && i0 < old(len(nl.Nodes)) ==> nl.Nodes[i0] == old(nl.Nodes[i0]))
+//@   ensures [C08:add:edgesClosed] closedEdges(nl)
+//@   ensures [C08:add:normalised] normalisedNL(nl)
+//@   invariant L0: validNL(nl) && validNL(nl2)
+//@   invariant L0: [C09:inv] existingNodes != nil && (forall k string :: (k in existingNodes) <==> (k in old(fieldset(nl.Nodes, Id)))) && (forall k string :: (k in existingNodes) ==> existingNodes[k] != nil && existingNodes[k].Id == k && (existingNodes[k] in old(elems(nl.Nodes))))
+//@   invariant L0: [C09:inv] (forall x string :: (x in fieldset(nl.Nodes, Id)) <==> ((x in old(fieldset(nl.Nodes, Id))) || (x in fieldsetn(nl2.Nodes, Id, _i))))
+//@   invariant L0: [C09:inv] old(addSep(nl, nl2)) ==> addSep(nl, nl2) && (forall r string :: (r in elems(nl.RootElements)) <==> (r in old(elems(nl.RootElements))))
+//@   invariant L1: validNL(nl) && validNL(nl2)
+//@   invariant L1: [C09:inv] old(addSep(nl, nl2)) ==> addSep(nl, nl2)
+//@   invariant L1: [C09:inv] old(addSep(nl, nl2)) ==> (forall r string :: (r in elems(nl.RootElements)) <==> (r in old(elems(nl.RootElements))))
+//@   invariant L1: [C09:inv] existingEdges != nil && (forall f string, t Edge_Type :: (f in existingEdges) && (t in existingEdges[f]) ==> len(existingEdges[f][t]) >= 1 && existingEdges[f][t][0] != nil && (existingEdges[f][t][0] in elems(nl.Edges)))
+//@   invariant L2: validNL(nl) && validNL(nl2)
+//@   invariant L2: [C09:inv] old(addSep(nl, nl2)) ==> (forall r string :: (r in elems(nl.RootElements)) <==> ((r in old(elems(nl.RootElements))) || (r in elemsn(nl2.RootElements, _i))))
+//@   invariant L2: [C09:inv] old(addSep(nl, nl2)) ==> (forall k string :: (k in rootElements) ==> (k in old(elems(nl.RootElements))))
+
+// closedRoots in index form (robust against in-place appends that overwrite a shared cell with a valid identifier)
+//@ pred closedRootsIdx(nl *NodeList) = forall j int :: 0 <= j && j < len(nl.RootElements) ==> (nl.RootElements[j] in fieldset(nl.Nodes, Id))
+
+//@ func NodeList.RelateNodeAtID
+//@   props C08
+//@   requires validNL(nl) && n != nil
+//@   ensures [C08:relateNode:error] (result != nil) <==> !(nodeID in old(fieldset(nl.Nodes, Id)))
+//@   ensures [C08:relateNode:unchangedOnError] result != nil ==> nl.Nodes == old(nl.Nodes) && nl.Edges == old(nl.Edges) && nl.RootElements == old(nl.RootElements)
+//@   ensures [C08:relateNode:valid] validNL(nl)
+//@   ensures [C08:relateNode:ids] result == nil ==> (forall x string :: (x in fieldset(nl.Nodes, Id)) <==> ((x in old(fieldset(nl.Nodes, Id))) || x == n.Id))
+//@   ensures [C08:relateNode:closed] result == nil && old(closedEdges(nl)) ==> closedEdges(nl)
+//@   ensures [C08:relateNode:rootsClosed] old(closedRootsIdx(nl)) ==> closedRootsIdx(nl)
+//@   ensures [C08:relateNode:unique] old(uniqueIdx(nl)) ==> uniqueIdx(nl)
+
+//@ func NodeList.RelateNodeListAtID
+//@   props C04, C08
+//@   requires validNL(nl) && validNL(nl2) && separatedNL(nl, nl2)
+//@   assigns nl.Nodes, nl.Edges, nl.RootElements, (nl.Edges)[*]
+//@   ensures [validNL] validNL(nl)
+//@   ensures [arrays] (arr(nl.Nodes) == old(arr(nl.Nodes)) || fresh(arr(nl.Nodes))) && (arr(nl.Edges) == old(arr(nl.Edges)) || fresh(arr(nl.Edges))) && nl.RootElements == old(nl.RootElements)
+//@   invariant L0: validNL(nl) && validNL(nl2) && nl2.Nodes == old(nl2.Nodes) && (arr(nl2.Nodes) == nil || arr(nl.Nodes) != arr(nl2.Nodes))
+//@   invariant L0: (arr(nl.Nodes) == old(arr(nl.Nodes)) || fresh(arr(nl.Nodes))) && (arr(nl.Edges) == old(arr(nl.Edges)) || fresh(arr(nl.Edges)))
+//@   invariant L1: validNL(nl) && validNL(nl2)
+//@   invariant L1: (arr(nl.Nodes) == old(arr(nl.Nodes)) || fresh(arr(nl.Nodes))) && (arr(nl.Edges) == old(arr(nl.Edges)) || fresh(arr(nl.Edges)))
+
+//@ func NewNodeIdentifier
+//@   props C04, C05
+//@   assigns \nothing
+//@   ensures [C05:identifier:nonEmpty] result != ""
+//@   ensures [C05:identifier:prefix] hasPrefix(result, "protobom")
+//@   invariant L0: len(knownPrefixes) >= 1 && knownPrefixes[0] == "protobom" && arr(knownPrefixes) != arr(validPrefixes) && fresh(arr(knownPrefixes)) && (cap(validPrefixes) == 0 || fresh(arr(validPrefixes)))
+//@   invariant L1: len(knownPrefixes) >= 1 && knownPrefixes[0] == "protobom" && arr(knownPrefixes) != arr(validPrefixes) && fresh(arr(knownPrefixes)) && (cap(validPrefixes) == 0 || fresh(arr(validPrefixes)))
+
+// a switch over the enum: state independent; contracts use its shadow function under quantifiers
+//@ func Edge_Type.ToSPDX2
+//@   props C01
+//@   shadow
+
+// ---------------------------------------------------------------------------
+// C09 / C10: the algebraic laws on identifier and root sets, as lemmas over the
+// postconditions of Union and Intersect (unionSets / intersectSets restate the
+// [C09:union:ids], [C09:union:roots], [C10:intersect:ids] clauses)
+// ---------------------------------------------------------------------------
+//@ pred unionSets(r *NodeList, a *NodeList, b *NodeList) = (forall x string :: (x in fieldset(r.Nodes, Id)) <==> ((x in fieldset(a.Nodes, Id)) || (x in fieldset(b.Nodes, Id)))) && (forall y string :: (y in elems(r.RootElements)) <==> ((y in elems(a.RootElements)) || (y in elems(b.RootElements))))
+//@ pred intersectIds(r *NodeList, a *NodeList, b *NodeList) = forall x string :: (x in fieldset(r.Nodes, Id)) <==> ((x in fieldset(a.Nodes, Id)) && (x in fieldset(b.Nodes, Id)))
+//@ pred sameSets(r *NodeList, s *NodeList) = (forall x string :: (x in fieldset(r.Nodes, Id)) <==> (x in fieldset(s.Nodes, Id))) && (forall y string :: (y in elems(r.RootElements)) <==> (y in elems(s.RootElements)))
+//@ pred sameIds(r *NodeList, s *NodeList) = forall x string :: (x in fieldset(r.Nodes, Id)) <==> (x in fieldset(s.Nodes, Id))
+
+//@ lemma unionCommutative [C09]: forall a *NodeList, b *NodeList, r1 *NodeList, r2 *NodeList :: unionSets(r1, a, b) && unionSets(r2, b, a) ==> sameSets(r1, r2)
+//@ lemma unionIdempotent [C09]: forall a *NodeList, r *NodeList :: unionSets(r, a, a) ==> sameSets(r, a)
+//@ lemma unionAssociative [C09]: forall a *NodeList, b *NodeList, c *NodeList, ab *NodeList, bc *NodeList, r1 *NodeList, r2 *NodeList :: unionSets(ab, a, b) && unionSets(r1, ab, c) && unionSets(bc, b, c) && unionSets(r2, a, bc) ==> sameSets(r1, r2)
+//@ lemma unionIdentity [C09]: forall a *NodeList, e *NodeList, r *NodeList :: len(e.Nodes) == 0 && len(e.RootElements) == 0 && unionSets(r, a, e) ==> sameSets(r, a)
+//@ lemma intersectCommutative [C10]: forall a *NodeList, b *NodeList, r1 *NodeList, r2 *NodeList :: intersectIds(r1, a, b) && intersectIds(r2, b, a) ==> sameIds(r1, r2)
+//@ lemma intersectIdempotent [C10]: forall a *NodeList, r *NodeList :: intersectIds(r, a, a) ==> sameIds(r, a)
+//@ lemma intersectAbsorption [C10]: forall a *NodeList, b *NodeList, u *NodeList, r *NodeList :: unionSets(u, a, b) && intersectIds(r, a, u) ==> sameIds(r, a)
+//@ lemma intersectEmpty [C10]: forall a *NodeList, e *NodeList, r *NodeList :: len(e.Nodes) == 0 && intersectIds(r, a, e) ==> len(r.Nodes) == 0 || (forall x string :: !(x in fieldset(r.Nodes, Id)))
